@@ -129,6 +129,41 @@ func init() {
 		"time.Sleep":           nop,
 		"time.Now":             hTimeNow,
 		"(net/http.Header).Get": hHeaderGet,
+		"(time.Time).Format": func(e *Exec, st *State, fv FuncV, a []Value, cc *ssa.CallCommon) Value {
+			e.res.noteOnce("placeholder: Time.Format returns \"<time>\"")
+			return e.strConst("<time>")
+		},
+		"(*sync/atomic.Value).Load": func(e *Exec, st *State, fv FuncV, a []Value, cc *ssa.CallCommon) Value {
+			return e.load(st, e.nonNil(st, a[0]).extend(Sel{k: 0}))
+		},
+		"(*sync/atomic.Value).Store": func(e *Exec, st *State, fv FuncV, a []Value, cc *ssa.CallCommon) Value {
+			iv := a[1].(IfaceV)
+			if iv.t == nil {
+				e.checkPanic(st, e.c.True, "sync/atomic: store of nil value into Value")
+			}
+			e.store(st, e.nonNil(st, a[0]).extend(Sel{k: 0}), iv)
+			return nil
+		},
+		"maps.clone": func(e *Exec, st *State, fv FuncV, a []Value, cc *ssa.CallCommon) Value {
+			iv := a[0].(IfaceV)
+			m := iv.v.(MapV)
+			if m.obj == 0 {
+				return iv
+			}
+			p := e.alloc(st, &MapObj{append([]MapEntry(nil), e.mapObj(st, m).entries...)})
+			return IfaceV{t: iv.t, v: MapV{obj: p.obj}}
+		},
+		"time.Parse": hTimeParse,
+		"crypto/rand.Read": func(e *Exec, st *State, fv FuncV, a []Value, cc *ssa.CallCommon) Value {
+			s := a[0].(SliceV)
+			n := int(e.concretize(st, s.len, "rand.Read length"))
+			for i := 0; i < n; i++ {
+				st.stubCalls++
+				e.store(st, e.sliceElemPtr(s, e.c.Const(64, uint64(i))), e.c.Fresh("rand", BV(8)))
+			}
+			e.res.noteOnce("stub(contract): crypto/rand.Read fills the buffer with arbitrary bytes")
+			return TupleV{[]Value{e.c.Const(64, uint64(n)), IfaceV{}}}
+		},
 
 		// ---- logging / formatting (no-ops that still evaluated their arguments) ----
 		"log.Printf":   nop,
@@ -1017,6 +1052,12 @@ func hBytesCompare(e *Exec, st *State, fv FuncV, a []Value, cc *ssa.CallCommon) 
 func hTimeNow(e *Exec, st *State, fv FuncV, a []Value, cc *ssa.CallCommon) Value {
 	st.stubCalls++
 	k := st.stubCalls
+	if e.ob.Clock == "concrete" {
+		// the clock is not this obligation's subject: 2026-01-01T00:00:00Z plus 1 ms per reading
+		e.res.noteOnce("stub: time.Now is a concrete clock (2026-01-01 + 1 ms per reading) in this obligation")
+		ns := uint64(k) * 1000000
+		return &StructV{[]Value{e.c.Const(64, ns%1000000000), e.c.Const(64, 62135596800+1767225600+ns/1000000000), Ptr{}}}
+	}
 	sec := e.c.Var(fmt.Sprintf("now#%d.sec", k), BV(64))
 	nsec := e.c.Var(fmt.Sprintf("now#%d.nsec", k), BV(32))
 	e.inputs[sec.name], e.inputs[nsec.name] = sec, nsec
@@ -1057,4 +1098,19 @@ func hHeaderGet(e *Exec, st *State, fv FuncV, a []Value, cc *ssa.CallCommon) Val
 		}
 	}
 	return &StrV{}
+}
+
+// hTimeParse: time.Parse on concrete strings is computed by the engine with
+// the real time.Parse (the result is a Time without monotonic reading).
+func hTimeParse(e *Exec, st *State, fv FuncV, a []Value, cc *ssa.CallCommon) Value {
+	layout, value := e.cstr(a[0]), e.cstr(a[1])
+	t, err := time.Parse(layout, value)
+	if err != nil {
+		et := e.namedType("errors", "errorString")
+		obj := e.alloc(st, &StructV{[]Value{e.strConst("time: parse error")}})
+		return TupleV{[]Value{e.zero(fv.fn.Signature.Results().At(0).Type()), IfaceV{t: types.NewPointer(et), v: obj}}}
+	}
+	sec := uint64(t.Unix() + 62135596800)
+	e.res.noteOnce("model: time.Parse on concrete strings evaluated by the engine")
+	return TupleV{[]Value{&StructV{[]Value{e.c.Const(64, uint64(t.Nanosecond())), e.c.Const(64, sec), Ptr{}}}, IfaceV{}}}
 }
